@@ -18,7 +18,7 @@ META = {
     "chain/ring/star/grid/complete with 10, 20, 30 vertices. For init=generic the judged run is the SECOND run on the same Graph object (first run: one more vertex fixed, other initial guess; then released and re-seeded). Oracle: closed-form reduced WLS (Cholesky-whitened lstsq) for poses and chi2. "
     "non-trivial = at least one free vertex and the optimum differs from the initial guess by more than 1e-6",
     "assumptions": ["numpy cholesky/lstsq trusted on <= 90 unknowns", "exhaustive up to 4 (quick) / 5 (thorough) vertices; structured (not exhaustive) families above", "tolerance 1e-7 x (1 + scale)"],
-    "required_classes": ["second_run_on_same_graph", "tree", "loop", "multi_edge", "landmark_offset", "reversed_orientation", "several_fixed", "far_init", "ill_conditioned", "noise_free", "noisy", "structured", "d2", "d3"],
+    "required_classes": ["fix_first_pose_true", "second_run_on_same_graph", "tree", "loop", "multi_edge", "landmark_offset", "reversed_orientation", "several_fixed", "far_init", "ill_conditioned", "noise_free", "noisy", "structured", "d2", "d3"],
     "bounds": {"quick": "n<=3 all; n=4 with <=4 edges; fixed subsets of size <=2; init {generic, far}; Omega {spd, ill}; noise {0 (n<=3), generic}", "thorough": "n<=4 all (<=5 edges); n=5 <=5 edges with single fixed vertex; all factors"},
 }
 
@@ -266,7 +266,13 @@ def _eval_inner(case):
     classes.append("noise_free" if case["noise"] == "zero" else "noisy")
     if case.get("structured"):
         classes.append("structured")
-    sol, chi2s, cond = wls.solve(spec, case["fixed"])
+    # fix_first_pose=True (the default of optimize) adds the first listed vertex to whatever is already marked
+    ffp = case["init"] == "mixed" or (case["init"] == "far" and sum(case["fixed"]) >= 2)
+    eff = list(case["fixed"])
+    if ffp:
+        eff[0] = True
+        classes.append("fix_first_pose_true")
+    sol, chi2s, cond = wls.solve(spec, eff)
     g, verts, edges = GB.build(spec)
     if case["init"] == "generic":
         # history: the same Graph object was already optimised once with one MORE vertex fixed and from another initial guess;
@@ -284,13 +290,13 @@ def _eval_inner(case):
         for i in free:
             verts[i].pose = type(verts[i].pose)(keep[i])
     before = GB.snapshot(verts)
-    res = GB.optimize(g, fix_first_pose=False)
+    res = GB.optimize(g, fix_first_pose=ffp)
     after = GB.snapshot(verts)
     msgs = []
     ratio = 0.0
     moved = False
     for i, v in enumerate(spec["vertices"]):
-        if case["fixed"][i]:
+        if eff[i]:
             if after[i][2] != before[i][2]:
                 msgs.append("fixed vertex %d moved" % i)
             continue
@@ -313,4 +319,4 @@ def _eval_inner(case):
     c2 = float(g.calc_chi2())
     if not abs(c2 - res.final_chi2) <= 1e-12 * (osc + abs(c2)):
         msgs.append("final_chi2 %.17g differs from calc_chi2() of the returned graph %.17g" % (res.final_chi2, c2))
-    return msgs, {"ratio": ratio, "classes": classes, "iters": res.num_iterations, "nontrivial": moved and not all(case["fixed"])}
+    return msgs, {"ratio": ratio, "classes": classes, "iters": res.num_iterations, "nontrivial": moved and not all(eff)}
